@@ -1223,7 +1223,27 @@ def _k_neg_rewind(vio):
         "decompiled-differs")
 
 
+def _k_semicolon_in_comment(vio):
+    det = vio.get("detail") or {}
+    if vio["kind"] != "compile-verdict-differs" or det.get("library") != "compile-error" or det.get("reference") != "ok":
+        return False
+    if "is missing its closing ')'" not in str(det.get("why")):
+        return False
+    depth = 0
+    for tok in str(det.get("src") or "").split():
+        if tok == "(":
+            depth += 1
+        elif tok == ")" and depth:
+            depth -= 1
+        elif tok == ";" and depth:
+            return True
+    return False
+
+
 LOCAL_KNOWN = [
+    ("FF86-forth-semicolon-inside-comment", _k_semicolon_in_comment,
+     "a `;` inside a `( ... )` comment within a word definition ends the definition (the compiler looks for the "
+     "closing `;` before it skips comments): `: w 1 ( a ; b ) 2 ;` is refused with \"'(' is missing its closing ')'\""),
     ("FF72-forth-negative-repeat-count", _k_negative_count,
      "AwkwardForth repeated read `n x #T-> ...` with a negative count n moves the input position backwards "
      "without a bounds check (ForthInputBuffer::read only tests the upper end): later reads run before the "
